@@ -3,13 +3,13 @@ from numba import prange
 
 from .._common import dist3d, jitted, norm3d
 from .._interp import interp3d
-from ._common import shrink
+from ._common import raise_status, shrink
 
 
 @jitted(
-    "Tuple((f8[:, :], i4))(f8[:], f8[:], f8[:], f8[:, :, :], f8[:, :, :], f8[:, :, :], f8, f8, f8, f8, f8, f8, f8, i4, b1)"
+    "Tuple((f8[:, :], i4, i4))(f8[:], f8[:], f8[:], f8[:, :, :], f8[:, :, :], f8[:, :, :], f8, f8, f8, f8, f8, f8, f8, i4, b1)"
 )
-def _ray3d(
+def _ray3d_status(
     z,
     x,
     y,
@@ -26,12 +26,20 @@ def _ray3d(
     max_step,
     honor_grid,
 ):
-    """Perform a posteriori 3D ray-tracing."""
+    """
+    Perform a posteriori 3D ray-tracing.
+
+    Errors are returned as a status (1: end point out of bound, 2: maximum number of
+    steps reached) so that they are not lost when called from a parallel loop.
+
+    """
+    ray = np.empty((max_step, 3), dtype=np.float64)
+
     condz = z[0] <= zend <= z[-1]
     condx = x[0] <= xend <= x[-1]
     condy = y[0] <= yend <= y[-1]
     if not (condz and condx and condy):
-        raise ValueError("end point out of bound")
+        return ray, 0, 1
 
     if honor_grid:
         nz, nx, ny = len(z), len(x), len(y)
@@ -54,11 +62,10 @@ def _ray3d(
     count = 1
     pcur = np.array([zend, xend, yend], dtype=np.float64)
     delta = np.empty(3, dtype=np.float64)
-    ray = np.empty((max_step, 3), dtype=np.float64)
     ray[0] = pcur.copy()
     while dist3d(zsrc, xsrc, ysrc, pcur[0], pcur[1], pcur[2]) >= stepsize:
         if count >= max_step:
-            raise RuntimeError("maximum number of steps reached")
+            return ray, count, 2
 
         gz = interp3d(z, x, y, zgrad, pcur)
         gx = interp3d(z, x, y, xgrad, pcur)
@@ -116,9 +123,52 @@ def _ray3d(
             count += 1
 
     if count >= max_step:
-        raise RuntimeError("maximum number of steps reached")
+        return ray, count, 2
 
     ray[count] = np.array([zsrc, xsrc, ysrc], dtype=np.float64)
+
+    return ray, count, 0
+
+
+@jitted(
+    "Tuple((f8[:, :], i4))(f8[:], f8[:], f8[:], f8[:, :, :], f8[:, :, :], f8[:, :, :], f8, f8, f8, f8, f8, f8, f8, i4, b1)"
+)
+def _ray3d(
+    z,
+    x,
+    y,
+    zgrad,
+    xgrad,
+    ygrad,
+    zend,
+    xend,
+    yend,
+    zsrc,
+    xsrc,
+    ysrc,
+    stepsize,
+    max_step,
+    honor_grid,
+):
+    """Perform a posteriori 3D ray-tracing."""
+    ray, count, status = _ray3d_status(
+        z,
+        x,
+        y,
+        zgrad,
+        xgrad,
+        ygrad,
+        zend,
+        xend,
+        yend,
+        zsrc,
+        xsrc,
+        ysrc,
+        stepsize,
+        max_step,
+        honor_grid,
+    )
+    raise_status(status)
 
     return ray, count
 
@@ -145,8 +195,9 @@ def _ray3d_vectorized(
     n = len(zend)
     rays = np.empty((n, max_step, 3), dtype=np.float64)
     counts = np.empty(n, dtype=np.int32)
+    status = np.empty(n, dtype=np.int32)
     for i in prange(n):
-        rays[i], counts[i] = _ray3d(
+        rays[i], counts[i], status[i] = _ray3d_status(
             z,
             x,
             y,
@@ -163,6 +214,10 @@ def _ray3d_vectorized(
             max_step,
             honor_grid,
         )
+
+    # Exceptions raised inside a parallel loop are lost: raise them afterwards
+    for i in range(n):
+        raise_status(status[i])
 
     return rays, counts
 
